@@ -91,6 +91,7 @@ def convertMCNPGeometry(mcnp_parser, lattice_params, args):
                 print(' done', flush=True)
 
     dic_volume, mcnp_new_dict, dic_surface_t4, skipped_cells, union_ids = vol_conv
+    renumber = {}
     if not args.skip_deduplication:
         dic_surface_t4, renumber = remove_duplicate_surfaces(dic_surface_t4)
         dic_volume = renumber_surfaces(dic_volume, renumber)
@@ -99,7 +100,7 @@ def convertMCNPGeometry(mcnp_parser, lattice_params, args):
     remove_unused_volumes(dic_volume)
 
     return (dic_surface_mcnp, dic_surface_t4, dic_volume, mcnp_new_dict,
-            skipped_cells)
+            skipped_cells, renumber)
 
 
 def writeT4Geometry(dic_surface_t4, dic_volume, skipped_cells, ofile):
